@@ -76,14 +76,34 @@ def card_getter(F, path, want_ty):
     return fld["ty"] == want_ty
 
 
-def whole_param_loop(fn, loop, param=1):
+ORDER_ONLY = ("std::iter::Iterator::rev", "std::iter::Iterator::copied", "std::iter::Iterator::cloned")
+
+
+def whole_param_loop(fn, loop, param=1, order_free=False):
+    """the loop visits every element of the card array parameter; with order_free (a commutative fold / per-suit count whose
+    result does not depend on the visiting order) `rev()` and `copied()` are allowed as well"""
     src, chain = loop.chain()
     if P.strip(src) != ("param", param):
         return False, f"iterates {P.show(src)} instead of the whole card array parameter"
     for c in chain:
+        if order_free and c in ORDER_ONLY:
+            continue
         if c not in WHOLE_ARRAY_ITER_CALLS:
             return False, f"iterator adaptor {c} between the card array and the loop"
     return True, ""
+
+
+def is_assert_switch(fn, b):
+    """a switch one of whose arms can only diverge (the failing side of an `assert!` / `debug_assert!`): it selects
+    nothing about the computed value"""
+    rets = set(fn.cfg.return_blocks())
+    for _lab, tgt in fn.cfg.succ_edges[b]:
+        r = I.reachable_avoiding(fn, [], start=tgt)
+        if not (r & rets) and b not in r and all(fn.blocks[x]["term"]["k"] != "switch" for x in r):
+            ends = [x for x in r if not fn.cfg.succ_edges[x]]
+            if ends and all(fn.blocks[x]["term"]["k"] in ("call", "unreachable") for x in ends):
+                return True
+    return False
 
 
 def check_calls_whitelisted(F, fn, allowed_pred, rule):
@@ -91,6 +111,8 @@ def check_calls_whitelisted(F, fn, allowed_pred, rule):
         if bi not in fn.cfg.reachable:
             continue
         p = I.callee_path(t)
+        if p.startswith("core::panicking::") or p.startswith("std::rt::panic") or p.startswith("std::rt::begin_panic"):
+            continue        # a diverging assertion failure contributes nothing to the computed value (C08's audit owns it)
         if not allowed_pred(p, t):
             raise U(rule, f"unexplained call to {p} in {fn.path} (line {fn.blocks[bi]['line']})", fn)
 
@@ -304,7 +326,7 @@ def analyse_flush_hash(ctx, F, fn):
     if len(fl) != 1 or len(fn.cfg.loops()) != 1:
         raise U(rule, f"expected exactly one for-loop, found {len(fl)}", fn)
     loop = fl[0]
-    ok, why = whole_param_loop(fn, loop)
+    ok, why = whole_param_loop(fn, loop, order_free=True)     # the update is checked to be a commutative `+=` below
     if not ok:
         ctx.violation(rule, f"{fn.path}|loop-domain", why, fn=fn.path, file=fn.file, line=loop.line)
         return None
@@ -314,7 +336,7 @@ def analyse_flush_hash(ctx, F, fn):
         return (p.endswith("::eq") or p.endswith("::ne")) and ("PartialEq" in p)
 
     def allowed(p, t):
-        return (L.is_next_call(t) or p in WHOLE_ARRAY_ITER_CALLS or card_getter(F, p, SUIT)
+        return (L.is_next_call(t) or p in WHOLE_ARRAY_ITER_CALLS or p in ORDER_ONLY or card_getter(F, p, SUIT)
                 or card_getter(F, p, RANK) or is_eq_call(p))
     check_calls_whitelisted(F, fn, allowed, rule)
     if pr.stores:
@@ -595,6 +617,8 @@ def analyse_rainbow_hash(ctx, F, fn):
         t = fn.blocks[b]["term"]
         if t["k"] != "switch" or b in loop_switches:
             continue
+        if t["ty"] == "bool" and b not in walk_loop.body and (is_assert_switch(fn, b) or pr.operand(t["on"])[0] == "bool"):
+            continue        # e.g. a debug_assert after the walk (`if cfg!(debug_assertions)` is a constant switch)
         if t["ty"] != "bool" or b not in walk_loop.body:
             raise U(rule, f"unexplained switch at line {fn.blocks[b]['line']}", fn)
         term = pr.operand(t["on"])
